@@ -175,6 +175,11 @@ def run(res: C.Result):
                 s = r["serialized"].get(t[0])
                 if not s or not isinstance(s["move"], dict) or s["move"].get("kwargs", {}).get("oid") != t[1] or s["criteria"] != "UserCriteria":
                     res.fail("serialize", f"{c['driver']}: the user move / criteria of entry {t[0]!r} is not serialised through to_dict: {s}", {"input": c, "observed": r["serialized"]})
+        for t, ent in zip(r["table"], c["table"]):
+            s = r["serialized"].get(t[0]) or {}
+            if s.get("criteria_oid") != t[2] or (s.get("probability") is not None and abs(s["probability"] - ent.get("probability", 1.0)) > 1e-12):
+                res.fail("serialize:entry-mixed-up", f"{c['driver']}: table entry {t[0]!r} was added with criteria object {t[2]} and weight {ent.get('probability', 1.0)} but the simulation's dictionary holds "
+                         f"criteria {s.get('criteria_oid')} / weight {s.get('probability')} under that name", {"input": c, "observed": r["serialized"]})
         if not td and any(t[1] is not None for t in r["table"]):
             res.fail("serialize", f"{c['driver']}: to_dict() of the simulation never called the user objects' to_dict", {"input": c})
     got = {}
